@@ -31,6 +31,8 @@ def build_conn(cd):
             c.ticket13()
         for d in (cd.get("ku_at") or {}).get(str(i), ()):
             c.key_update(d, request=bool(i % 2))
+        if cd.get("reneg_at") == i and cd["ver"] != R.TLS13:
+            c.renegotiate()
         if i in alerts:                     # e.g. a half-close: close_notify of one side while the other still sends
             c.alert(alerts[i][0], alerts[i][1], 0)
         c.app(a[0], a[1], pad13=a[2] if len(a) > 2 else None)
